@@ -89,8 +89,8 @@ pub fn hook_table(rng: &mut Rng, hard_failures: bool) -> (Vec<HookCfg>, Vec<Grou
 		};
 		match rng.below(5) {
 			0 => h.stdin_str = Some(format!("in-{} {{{{ env.VK0 }}}}|{{{{ env.VK1 }}}}", name)),
-			1 => h.stdout = Some(format!("{}/out-{}.txt", SCRATCH, name)),
-			2 => h.stderr = Some(format!("{}/err-{}.txt", SCRATCH, name)),
+			1 => h.stdout = Some(format!("{}/out-{}-{{{{ env.VK0 }}}}.txt", SCRATCH, name)),
+			2 => h.stderr = Some(format!("{}/err-{}-{{{{ env.VK1 }}}}.txt", SCRATCH, name)),
 			_ => {}
 		}
 		if rng.chance(1, 4) {
